@@ -190,6 +190,8 @@ def shrink(P, line, exe, env, msg0):
         finally:
             os.remove(path)
         res, tr = rows[0]
+        if "BadCase" in res:
+            return None, None     # the shrunk line is no longer a well-formed case (e.g. an aliasing needle cut out of its haystack)
         t, fl = vlib.split_trace(tr)
         try:
             m = P["oracle"](op, kv2, vlib.canon_res(res), t, fl)
